@@ -22,6 +22,11 @@ Z = 7.5
 def make(ftype, T, param, mode, value):
     import kaira.channels as C
     kw = {"avg_noise_power": value} if mode == "power" else {"snr_db": value}
+    if ftype == "rayleigh_generic":
+        # the generic constructor with the options of the OTHER fading types filled in as well (documented as used only by their own type)
+        return C.FlatFadingChannel("rayleigh", coherence_time=T, k_factor=4.0, shadow_sigma_db=8.0, **kw)
+    if ftype == "rician_generic":
+        return C.FlatFadingChannel("rician", coherence_time=T, k_factor=param, shadow_sigma_db=8.0, **kw)
     if ftype == "rayleigh":
         return C.RayleighFadingChannel(coherence_time=T, **kw)
     if ftype == "rician":
@@ -158,8 +163,8 @@ def check_stat(ctx, cell, case):
     ctx.ev(n)
     ctx.nontrivial(cell, T)
     ms = float(np.mean(np.abs(h) ** 2))
-    if ftype in ("rayleigh", "rician"):
-        K = 0.0 if ftype == "rayleigh" else float(param)
+    if ftype in ("rayleigh", "rician", "rayleigh_generic", "rician_generic"):
+        K = 0.0 if ftype.startswith("rayleigh") else float(param)
         var2 = (1 + 2 * K) / (1 + K) ** 2
         tol = Z * np.sqrt(var2 / n) + 1e-5
         ctx.check(abs(ms - 1) <= tol, "C13.d_unit_mean_square_gain", cell, case, ms, {"expected": 1.0, "tol": tol}, "mean-square fading gain is not 1", "c13:check_stat")
@@ -282,4 +287,6 @@ def units(tier, seed):
         us.append(Unit(f"exact_{f}", "c13:unit_exact", {"ftype": f, "params": ps, "n_gen": 8000 if T else 200}, 4))
         for p in ps:
             us.append(Unit(f"stat_{f}_{p}", "c13:unit_stat", {"ftype": f, "param": p, "N": N}, 6))
+    us.append(Unit("stat_rayleigh_generic", "c13:unit_stat", {"ftype": "rayleigh_generic", "param": None, "N": N}, 6))
+    us.append(Unit("stat_rician_generic_5.0", "c13:unit_stat", {"ftype": "rician_generic", "param": 5.0, "N": N}, 6))
     return us
